@@ -143,6 +143,20 @@ pub fn damage(r: &Rendering) -> Vec<Damaged> {
             }
         }
     }
+    // 5c. the same for a quoted scalar inside a flow collection: a line break before its closing quote,
+    // the continuation at the enclosing block's column or left of it
+    for m in &r.marks {
+        if let Mark::FlowQuoted { start, end, parent } = m {
+            if *parent < 0 || *end < *start + 2 {
+                continue;
+            }
+            for c in 0..=(*parent as usize) {
+                let mut s = t.clone();
+                s.insert_str(*end - 1, &format!("\n{}x", " ".repeat(c)));
+                out.push(Damaged { op: 5, variant: "flow-dedent quoted-scalar-continuation", site: *end, text: s });
+            }
+        }
+    }
     // 6. line break inside a quoted implicit key of a block mapping; 7. implicit key of 1025 characters
     for m in &r.marks {
         match m {
